@@ -164,7 +164,7 @@ VCLS_MIX = ["Vertex", "Vertex", "VSub", "VSubSub", "FalsyVertex", "EmptyVertex",
 ECLS_DU = ["DirectedEdge", "UnDirectedEdge", "DSub", "DSubSub", "USub", "MixEdge", "FalsyEdge", "RenamedEdge", "PosOnlyEdge"]
 ECLS_ALL = ECLS_DU + ["OtherLink", "OtherLink2", "TwoEndedLink"]
 # + a two-ended link built directly on Link, and a second unknown class that is also called OtherLink
-ECLS_X = ECLS_ALL + ["DuckLink", "OtherLink~"]
+ECLS_X = ECLS_ALL + ["DuckLink", "OtherLink~", "AbcEdge", "AbcUEdge"]
 # + classes sharing their __name__ with another class, and a class with callable instances
 VCLS_X = VCLS_MIX + ["Vertex~", "VSub~", "VDirLess", "VRecord", "ClusterVertex"]
 # ... plus a class that files its attributes outside the instance dictionary (not for the renderers that discover
